@@ -513,6 +513,10 @@ def run(chk):
             chk.ob("C06-D10.group", o["function"], o["construct"], o["ok"], o["where"], o["detail"], o["expected"])
     chk.floor("C06-D10.group", ng, 4, "methods that set the member tested by the writer")
 
+    from rules import header
+    nh = header.header_rule(chk, db, "C06-D11.header")
+    chk.floor("C06-D11.header", nh, 2, "header numbers that size a vector in the reader")
+
     return ("Static rule discharge: every writer/reader pair (5 grid classes, index/storage sets, custom tabulated rule, both kinds of construction data, the addon sample storage) "
             "is linearised into a nested token sequence of (element type, data member) per i/o mode, template-constant branches folded, and the two sequences compared item by item; "
             "member coverage, enum codecs, top-level section tags and the unconditional rebuild of derived state are checked on the AST. Byte equality of a second write and the "
